@@ -216,8 +216,8 @@ func run(c *mon.Ctx) {
 	sym := []byte{0x47, 0x47, 0x47, 0x00, 0x10, 0x05, 0x1f, 0xff, 0x30, 0x04, 0x0f, 0x03, 0x20, 0x0c}
 	// the search is a function of its reader's content whoever else is searching another stream at that moment
 	c.Floor("concurrent.calls", 20000)
-	c.Stream("concurrent-searches", c.N(3, 150), func(i int, r *gen.Rand) {
-		c.Concurrent("packet.Sync on readers of their own", 8, 1500, r, func(q *gen.Rand) string {
+	c.Stream("concurrent-searches", c.N(8, 200), func(i int, r *gen.Rand) {
+		c.Concurrent("packet.Sync on readers of their own", 8, 6000, r, func(q *gen.Rand) string {
 			n := q.Intn(60)
 			if q.Chance(6) {
 				n = 188 + q.Intn(400)
